@@ -2,12 +2,24 @@
 import glob
 import json
 import os
+import re
 from framework import REPO, ROOT, LEAN
 
 TIE = ["Nsq.Tie.LookupSync"]
 PROPS = ["Nsq.Props.C16", "Nsq.Props.C16Ticks"]
 KEY_F3 = "negative-length-panic"
 KEY_STALE = "deleted-object-still-registered"
+KEY_NAMES = "precreate-unvalidated-channel-name"
+NAME_RE = re.compile(rb"^[.a-zA-Z0-9_-]+(#ephemeral)?$")
+
+
+def hexset(line):
+    """`{6f6b,-}` -> list of byte strings"""
+    return [b"" if x == "-" else bytes.fromhex(x) for x in line.strip("{}").split(",") if x]
+
+
+def valid_name(b):
+    return 1 <= len(b) <= 64 and NAME_RE.match(b) is not None
 
 
 def parse_views(line):
@@ -134,7 +146,8 @@ def judge_sync(ctx, res, label, corr_broken):
                 bad_modes.add(w[1])
             elif w[0] == "heal":
                 bad_modes.discard(w[1])
-            ctx.count_case(o + "|" + i, nontrivial=i not in ("notfound", "bad-op"))
+            # a case is non-trivial when the implementation's answer carries state (a settle line with the views)
+            ctx.count_case(o + "|" + i, nontrivial=i not in ("notfound", "bad-op", "ok"))
             if i != m and first is None:
                 first = (o, i, m, not bad_modes)
         if first is None:
@@ -197,7 +210,7 @@ def run(ctx):
         ctx.leanchecker(PROPS)
     corr_broken = []
     ctx.build_driver("e6")
-    binp = ctx.go_test_binary("nsqd", ["e6/sync_test.go"], "e6")
+    binp = ctx.go_test_binary("nsqd", ["e6/sync_test.go", "e6/more_test.go"], "e6")
     if not binp:
         ctx.broken_ties.append("harness e6/sync_test.go does not compile against the current tree")
         corr_broken.append("harness build")
@@ -262,18 +275,30 @@ def run(ctx):
             judge_sync(ctx, res, "sync", corr_broken)
             for x in list(zip(res[0], res[1]))[1:5]:
                 ctx.add_sample({"op": x[0], "impl": x[1][:200]})
-        # (e) pre-creation
-        rc, out, od = run_stream(ctx, binp, "TestVerifE6Precreate", "precreate", {}, 120)
-        oracle_lines(ctx, out, "precreate")
-        res = diff_stream(ctx, od, "precreate", "precreate")
-        if rc != 0 or not res:
-            corr_broken.append("precreate harness exit %s" % rc)
-        else:
+        # (e) pre-creation: lookupds failing over HTTP; which lookupds are asked at all (identified / not, connected /
+        # not: audit C26, seeded C16-m8); hostile channel names (audit C8)
+        for test, label, tmo in (("TestVerifE6Precreate", "precreate", 120), ("TestVerifE6PrecreateWindows", "prewin", 120),
+                                 ("TestVerifE6PrecreateBadNames", "prebad", 120)):
+            rc, out, od = run_stream(ctx, binp, test, label, {}, tmo)
+            oracle_lines(ctx, out, label)
+            res = diff_stream(ctx, od, label, label)
+            if rc != 0 or not res:
+                ctx.log("%s harness failed rc=%s\n%s" % (label, rc, out[-1500:]))
+                corr_broken.append("%s harness exit %s" % (label, rc))
+                continue
             for o, i, m in zip(*res):
                 ctx.count_case(o + "|" + i)
-                if i != m:
-                    corr_broken.append("correspondence precreate")
-                    ctx.violation("precreate", "GetTopic pre-created %s, model %s" % (i, m), "%s\n%s\n%s\n" % (o, i, m))
+                if i == m:
+                    continue
+                # model/impl disagreement: evaluate the PROPERTY on the implementation's answer
+                if o.startswith("prex") and any(not valid_name(b) for b in hexset(i)):
+                    bad = [b for b in hexset(i) if not valid_name(b)]
+                    if not ctx.violation(KEY_NAMES, "GetTopic created channels with invalid names %r taken from a lookupd's "
+                                         "/channels answer" % bad, "%s\nimpl : %s\nmodel: %s\n" % (o, i, m)):
+                        continue  # the listed known finding (tree without F35): not a broken correspondence
+                else:
+                    ctx.violation("precreate", "GetTopic pre-created %s, model %s (%s)" % (i, m, o), "%s\n%s\n%s\n" % (o, i, m))
+                corr_broken.append("correspondence " + label)
     if (ctx.broken_ties or corr_broken) and not ctx.violations:
         ctx.broken_without_input(ctx.broken_ties + corr_broken,
                                  "search: %d cases executed on the real code; no oracle failed" % ctx.evaluations)
